@@ -88,7 +88,7 @@ func c03Run(c c03Case) (viol bool, desc string, res eng.Result, expectAccept boo
 			}
 			c03Compiled[key] = sys
 		}
-		serr := sys.SolveCircuit(asg)
+		serr := sys.SolveCircuit(asg, cs.TolerantHints()...)
 		if (serr == nil) != expectAccept {
 			return true, fmt.Sprintf("%s compiled to R1CS: solver says %v for limbs %v values %v, expected accept=%v", in.Name(), serr, c.Limbs, c.V, expectAccept), res, expectAccept
 		}
